@@ -248,6 +248,99 @@ def rename_equal(t1, t2, m=None):
     return all(rename_equal(a, b, m) for a, b in zip(t1[1:], t2[1:]))
 
 
+# ---------------------------------------------------------------- replace_dict with several entries (simultaneous substitution)
+def multi_map_spec(rng):
+    """an expression with several non-leaf sub-terms of ONE shape over x, y, z, a map with several entries whose image overlaps its
+    domain (swap, rotation, shift, ...), and a second expression for a second call with the same dict object"""
+    w = rng.choice([2, 3, 3, 4])
+    x, y, z = ("bvs", "x%d" % w, w), ("bvs", "y%d" % w, w), ("bvs", "z%d" % w, w)
+    vs = [x, y, z]
+    c1, c2 = ("bvv", rng.randrange(1, 1 << w), w), ("bvv", rng.randrange(1 << w), w)
+
+    def shape():
+        k = rng.randrange(9)
+        return [lambda v: ("add", v, c1), lambda v: ("xor", v, c1), lambda v: ("mul", v, c1), lambda v: ("sub", c1, v), lambda v: ("not", v),
+                lambda v: ("add", ("xor", v, c1), c2), lambda v: ("mul", ("add", v, c1), v), lambda v: ("ite", ("ult", v, c1), v, c2),
+                lambda v: ("concat", ("extract:0:0", v), ("extract:%d:%d" % (w - 1, w - 1), v)) if w == 2 else ("lshr", v, ("bvv", 1, w))][k]
+
+    def expression():
+        f = shape()
+        terms = [f(v) for v in rng.sample(vs, rng.choice([2, 2, 3]))]
+        if rng.random() < 0.3:
+            terms.append(rng.choice(vs))
+        if rng.random() < 0.25:
+            terms.append(G.rand_bv(rng, w, 2))
+        rng.shuffle(terms)
+        t = terms[0]
+        for u in terms[1:]:
+            g = rng.choice(["mul", "sub", "add", "xor", "and", "or", "sub", "mul"])
+            t = (g, t, u) if rng.random() < 0.8 else (g, u, t)
+        r = rng.random()
+        if r < 0.15:
+            t = ("concat", t, f(rng.choice(vs)))
+        elif r < 0.3:
+            t = (rng.choice(["ult", "eq", "sle"]), t, f(rng.choice(vs)))
+        return t
+    kind = rng.choice(["swap", "swap", "rotation", "rotation", "shift", "shift", "chain-into-terms", "swap-with-terms", "single", "to-constants"])
+    a, b, c = rng.sample(vs, 3)
+    if kind == "swap":
+        m = [(a, b), (b, a)]
+    elif kind == "rotation":
+        m = [(a, b), (b, c), (c, a)]
+    elif kind == "shift":
+        m = [(a, b), (b, c)]
+    elif kind == "chain-into-terms":
+        m = [(a, ("add", b, c1)), (b, ("xor", c, a))]
+    elif kind == "swap-with-terms":
+        m = [(a, ("add", b, c1)), (b, ("add", a, c1))]
+    elif kind == "single":
+        m = [(a, rng.choice([b, ("add", a, c1), ("mul", b, a)]))]
+    else:
+        m = [(a, c1), (b, a)]
+    if rng.random() < 0.5:
+        rng.shuffle(m)
+    return {"w": w, "kind": kind, "map": [[k[1], v] for k, v in m], "exprs": [expression() for _ in range(rng.choice([1, 2, 2, 3]))]}
+
+
+def multi_map_check(spec, rng):
+    """replace_dict with ONE dict object over the expressions in turn; each result must be the simultaneous substitution of the map AS
+    GIVEN (all / sampled assignments).  -> None | (call index, text)"""
+    def tup(t):
+        return tuple(tup(x) if isinstance(x, list) else x for x in t)
+    w = spec["w"]
+    m = [(nm, tup(t)) for nm, t in spec["map"]]
+    keys = {nm: claripy.BVS(nm, w, explicit_name=True) for nm, _ in m}
+    try:
+        images = {nm: E.build(t) for nm, t in m}
+    except (ClaripyZeroDivisionError, E.Unsupported):
+        return None
+    repl = {keys[nm].hash(): images[nm] for nm, _ in m}
+    for n_, t in enumerate(spec["exprs"]):
+        t = tup(t)
+        a, log, e = X.build_case(t)
+        if e is not None:
+            continue
+        at = E.from_ast(a)
+        try:
+            r = claripy.replace_dict(a, repl)
+            rt = E.from_ast(r)
+        except (ClaripyZeroDivisionError, E.Unsupported):
+            continue
+        vs = {"x%d" % w: w, "y%d" % w: w, "z%d" % w: w}
+        for k_, ww in list(E.variables(at).items()) + list(E.variables(rt).items()):
+            vs.setdefault(k_, ww)
+        for env in E.all_envs(vs, 9) or E.sample_envs(vs, rng, 96):
+            env2 = dict(env)
+            for nm, it in m:
+                env2[nm] = E.ev(it, env)[2]
+            if E.ev(rt, env) != E.ev(at, env2):
+                return n_, "replace_dict(%s, {%s})%s = %s differs at %s: %s, simultaneous substitution gives %s" % (
+                    E.sexpr(at), ", ".join("%s: %s" % (nm, E.sexpr(it)) for nm, it in m),
+                    " [call #%d with the same dict object; earlier: %s]" % (n_ + 1, "; ".join(E.sexpr(tup(q)) for q in spec["exprs"][:n_])) if n_ else "",
+                    E.sexpr(rt), env, E.ev(rt, env), E.ev(at, env2))
+    return None
+
+
 def run(ctx):
     ctx.cov["trusted_base"] += [
         "modelled: replace_dict on a variable key (incl. the make_like rebuild that folds newly concrete nodes), canonicalize, ite_cases, ite_dict; "
@@ -538,6 +631,27 @@ def run(ctx):
         if gv != want or gb.length != 8 * size:
             viol("C08/get_bytes/wrong-bytes", "get_bytes(%d,%d) of %s at %s = %#x, expected %#x" % (idx, size, E.sexpr(at), env, gv, want),
                  {"tree": at, "index": idx, "size": size, "env": env})
+    # ---- replace_dict with several entries = SIMULTANEOUS substitution, also when the image of the map overlaps its domain (swaps,
+    # rotations, shifts) and when one dict object serves several calls (a replacement cache)
+    import random
+    mrng = random.Random("C08-multi-entry-maps:%d" % ctx.seed)     # own stream: the older stages keep theirs
+    for it in range(ctx.pick(700, 10000)):
+        spec = multi_map_spec(mrng)
+        ctx.count()
+        dist["M.multi_entry_map:" + spec["kind"]] += 1
+        bad = multi_map_check(spec, mrng)
+        if bad:
+            # shrink: fewer expressions before the failing call, then report
+            n_, what = bad
+            small = dict(spec, exprs=spec["exprs"][:n_ + 1])
+            for drop in range(n_ - 1, -1, -1):
+                trial = dict(small, exprs=small["exprs"][:drop] + small["exprs"][drop + 1:])
+                b2 = multi_map_check(trial, mrng)
+                if b2:
+                    small, (n_, what) = trial, b2
+            viol("C08/replace_dict/%snot-simultaneous-substitution/%s" % ("reused-map/" if len(small["exprs"]) > 1 else "", spec["kind"]), what, {"multi_map": small})
+        elif it % 5 == 0:
+            ctx.distinct(("multi-map", repr(spec)))
     agree = 0
     for tag, lines, wants in (("corr:replace", rep_lines, rep_want), ("corr:canonicalize", can_lines, can_want), ("corr:ite_dict-plan", plan_lines, plan_want)):
         if not lines:
@@ -590,6 +704,12 @@ def replay(ctx, obj):
 
     def tup(t):
         return tuple(tup(x) if isinstance(x, list) else x for x in t)
+    if "multi_map" in r:
+        bad = multi_map_check(r["multi_map"], ctx.rng)
+        print(bad[1] if bad else "every call is the simultaneous substitution of the map on the current tree")
+        if bad:
+            print("VIOLATION property=C08 replay=(given)"); return 1
+        return 0
     if "fp_table" in r:
         bad = fp_table_check(r["fp_table"])
         print(bad or "the table is the first-match table on the current tree")
